@@ -65,10 +65,12 @@ func checkSourceMap(t *fw.T, rd *gen.Rendered, c Cfg, res compiler.CompileResult
 	t.Count("segments_checked", len(segs))
 	// ground truth: source tokens by position (and their index in the ';'-free sequence)
 	srcAt := map[pos2]int{}
+	srcSemi := map[pos2]bool{} // ';' tokens: legitimate mapping targets, but not part of the occurrence sequence
 	var srcSeq []*gen.Tok
 	for i := range rd.Toks {
 		tk := &rd.Toks[i]
 		if tk.Kind == gen.TPunct && tk.Text == ";" {
+			srcSemi[pos2{tk.Line, tk.Col}] = true
 			continue
 		}
 		srcAt[pos2{tk.Line, tk.Col}] = len(srcSeq)
@@ -76,9 +78,11 @@ func checkSourceMap(t *fw.T, rd *gen.Rendered, c Cfg, res compiler.CompileResult
 	}
 	items := reflex.Tokens(reflex.Scan(res.Code))
 	genAt := map[pos2]int{}
+	genSemi := map[pos2]bool{}
 	var genSeq []reflex.Item
 	for _, it := range items {
 		if it.Kind == reflex.Punct && it.Text == ";" {
+			genSemi[pos2{it.Line, it.Col}] = true
 			continue
 		}
 		genAt[pos2{it.Line, it.Col}] = len(genSeq)
@@ -113,6 +117,14 @@ func checkSourceMap(t *fw.T, rd *gen.Rendered, c Cfg, res compiler.CompileResult
 			return
 		}
 		prev = gp
+		if genSemi[gp] {
+			// a segment on a ';' is fine as long as it points at a ';' of the source
+			if !srcSemi[pos2{s.SrcLine, s.SrcCol}] {
+				t.Violate("different-lexeme", key+"/operator ;", fmt.Sprintf("segment %d links a generated ';' at %d:%d with source %d:%d, which is not a ';'", i, gp.line, gp.col, s.SrcLine, s.SrcCol), wit())
+				return
+			}
+			continue
+		}
 		gi, okG := genAt[gp]
 		if !okG {
 			w := wit()
@@ -236,7 +248,7 @@ func init() {
 			"strings are compared by content, quote style aside; G-syn strings contain no escapes (C07 owns escapes)",
 		},
 		Strata: []*fw.Stratum{
-			{Name: "programs", Quick: 1500, Thorough: 15000, Run: runC08},
+			{Name: "programs", Quick: 12000, Thorough: 100000, Run: runC08},
 		},
 	})
 }
